@@ -883,6 +883,7 @@ func (h *handler) asyncSyncAdChain(ctx context.Context) {
 	syncer, updatePeerstore, err := h.makeSyncer(peerInfo, true)
 	if err != nil {
 		log.Errorw("Cannot make syncer for announce", "err", err, "peer", h.peerID)
+		h.asyncSyncFailed(nextCid, err)
 		return
 	}
 
@@ -893,20 +894,25 @@ func (h *handler) asyncSyncAdChain(ctx context.Context) {
 	sel := ExploreRecursiveWithStopNode(adsDepthLimit, h.subscriber.adsSelectorSeq, latestSyncLink)
 	syncCount, err := h.handle(ctx, nextCid, sel, syncer, h.subscriber.generalBlockHook, h.subscriber.segDepthLimit, stopAtCid)
 	if err != nil {
-		// Failed to handle the sync, so allow another announce for the same CID.
-		if h.subscriber.receiver != nil {
-			h.subscriber.receiver.UncacheCid(nextCid)
-		}
 		log.Errorw("Cannot process message", "err", err, "peer", h.peerID)
-		h.subscriber.inEvents <- SyncFinished{
-			Cid:    nextCid,
-			PeerID: h.peerID,
-			Err:    err,
-		}
+		h.asyncSyncFailed(nextCid, err)
 		return
 	}
 	updatePeerstore()
 	h.sendSyncFinishedEvent(nextCid, syncCount)
+}
+
+// asyncSyncFailed reports the failure of a sync started by an announcement.
+func (h *handler) asyncSyncFailed(nextCid cid.Cid, err error) {
+	// Failed to handle the sync, so allow another announce for the same CID.
+	if h.subscriber.receiver != nil {
+		h.subscriber.receiver.UncacheCid(nextCid)
+	}
+	h.subscriber.inEvents <- SyncFinished{
+		Cid:    nextCid,
+		PeerID: h.peerID,
+		Err:    err,
+	}
 }
 
 var _ SegmentSyncActions = (*segmentedSync)(nil)
